@@ -29,10 +29,21 @@ fn q_len() -> usize {
     unsafe { QT - QH }
 }
 
+/// observation points of the receiver seen so far, and the (concrete) one at which the sender side acts:
+/// 0 before the receiver's re-check pop, 1 right after that pop found nothing, 2 while the receiver is parked.
+/// CONCRETE per harness (CBMC cannot cope with heap-changing events chosen symbolically).
+static mut OBS: usize = 0;
+static mut ENV_WHEN: usize = 0;
+
 /// the pending sender-side action runs to completion here (real code), at most once
 fn env_step() {
     unsafe {
-        if IN_ENV || ENV_DONE || ENV_PENDING == 0 || !kani::any::<bool>() {
+        if IN_ENV {
+            return;
+        }
+        let here = OBS;
+        OBS += 1;
+        if ENV_DONE || ENV_PENDING == 0 || here != ENV_WHEN {
             return;
         }
         IN_ENV = true;
@@ -63,6 +74,9 @@ fn q_pop_stub<T>(_q: &Queue<T>) -> Option<T> {
     env_step();
     unsafe {
         if QH == QT {
+            // the window between "looked and found nothing" and the receiver's next step
+            // (a value that arrives in this window is NOT returned by this pop: the queue was empty when it looked)
+            env_step();
             return None;
         }
         let b = Q[QH];
@@ -124,6 +138,8 @@ fn setup(queued: usize, pending: u8) -> &'static InnerQueue<u8> {
         IN_ENV = false;
         UNPARKS = 0;
         PARKS = 0;
+        OBS = 0;
+        ENV_WHEN = 0;
         let mut i = 0;
         while i < queued {
             Q[QT] = 100 + i as u8;
@@ -134,25 +150,10 @@ fn setup(queued: usize, pending: u8) -> &'static InnerQueue<u8> {
     q
 }
 
-//@ obligation: C06.2a
-//@ kind: K3
-//@ complete: yes
-//@ functions: mpsc::InnerQueue::recv, InnerQueue::try_recv, InnerQueue::send
-//@ statement: recv (untimed and timed) with 0 or 1 value queued against ONE concurrent send executed at any of the receiver's observation points
-//@ statement: (before its re-check, between the re-check and the park, while parked): the receiver never parks unregistered, never parks while a
-//@ statement: value is queued whose sender is past its wake-up, and once the send has happened recv returns exactly the oldest value; a value that was
-//@ statement: queued is returned without parking and the registration is cleared
-#[kani::proof]
-#[kani::stub(crate::scheduler::get_scheduler, sup::get_scheduler_stub)]
-#[kani::stub(<crate::park::Park as std::ops::Drop>::drop, sup::park_drop_noop)]
-#[kani::stub(may_queue::mpsc::Queue::push, q_push_stub)]
-#[kani::stub(may_queue::mpsc::Queue::pop, q_pop_stub)]
-#[kani::stub(crate::sync::blocking::Blocker::park, park_stub)]
-#[kani::stub(crate::sync::blocking::Blocker::unpark, unpark_stub)]
-#[kani::unwind(3)]
-fn c06_2a_recv_is_woken_by_send() {
-    let queued: usize = if kani::any() { 1 } else { 0 };
+fn recv_is_woken_by_send<const QUEUED: usize, const WHEN: usize>() {
+    let queued: usize = QUEUED;
     let q = setup(queued, 1);
+    unsafe { ENV_WHEN = WHEN };
     let timed: bool = kani::any();
     let r = q.recv(if timed { Some(Duration::from_millis(4)) } else { None });
     let sent = unsafe { ENV_DONE };
@@ -167,16 +168,16 @@ fn c06_2a_recv_is_woken_by_send() {
         assert!(r == Err(TryRecvError::Empty) && timed, "[C06.2-empty-only-on-timeout] recv reports Empty only after a timed-out park with nothing sent");
     }
     assert!(unsafe { PUSHES } == if sent { 1 } else { 0 } && q_len() == if sent && queued == 1 { 1 } else { 0 }, "[C06.2-once] every value is in the channel or delivered exactly once");
-    kani::cover!(queued == 0 && sent && unsafe { PARKS } == 0, "send slipped in before the re-check");
-    kani::cover!(queued == 0 && sent && unsafe { PARKS } == 1, "send woke the parked receiver");
 }
 
-//@ obligation: C07.1a
+//@ obligation: C06.2.0
 //@ kind: K3
 //@ complete: yes
-//@ functions: mpsc::InnerQueue::recv, InnerQueue::try_recv, InnerQueue::drop_chan
-//@ statement: the same with the DROP OF THE LAST SENDER as the concurrent action and 0 or 1 value still queued: the receiver never parks once the
-//@ statement: last sender is past its wake-up; it first drains the queued value and reports Disconnected only with an empty queue, after the drop
+//@ functions: mpsc::InnerQueue::recv, InnerQueue::try_recv, InnerQueue::send
+//@ statement: variant [a value already queued]: recv (untimed and timed) with 0 or 1 value queued against ONE concurrent send executed at any of the receiver's observation points
+//@ statement: (before its re-check, between the re-check and the park, while parked): the receiver never parks unregistered, never parks while a
+//@ statement: value is queued whose sender is past its wake-up, and once the send has happened recv returns exactly the oldest value; a value that was
+//@ statement: queued is returned without parking and the registration is cleared
 #[kani::proof]
 #[kani::stub(crate::scheduler::get_scheduler, sup::get_scheduler_stub)]
 #[kani::stub(<crate::park::Park as std::ops::Drop>::drop, sup::park_drop_noop)]
@@ -185,9 +186,77 @@ fn c06_2a_recv_is_woken_by_send() {
 #[kani::stub(crate::sync::blocking::Blocker::park, park_stub)]
 #[kani::stub(crate::sync::blocking::Blocker::unpark, unpark_stub)]
 #[kani::unwind(3)]
-fn c07_1a_recv_observes_last_sender_drop() {
-    let queued: usize = if kani::any() { 1 } else { 0 };
+fn c06_2a_recv_is_woken_by_send_0() {
+    recv_is_woken_by_send::<1, 0>();
+}
+
+//@ obligation: C06.2.1
+//@ kind: K3
+//@ complete: yes
+//@ functions: mpsc::InnerQueue::recv, InnerQueue::try_recv, InnerQueue::send
+//@ statement: variant [before the receiver's re-check of the queue]: recv (untimed and timed) with 0 or 1 value queued against ONE concurrent send executed at any of the receiver's observation points
+//@ statement: (before its re-check, between the re-check and the park, while parked): the receiver never parks unregistered, never parks while a
+//@ statement: value is queued whose sender is past its wake-up, and once the send has happened recv returns exactly the oldest value; a value that was
+//@ statement: queued is returned without parking and the registration is cleared
+#[kani::proof]
+#[kani::stub(crate::scheduler::get_scheduler, sup::get_scheduler_stub)]
+#[kani::stub(<crate::park::Park as std::ops::Drop>::drop, sup::park_drop_noop)]
+#[kani::stub(may_queue::mpsc::Queue::push, q_push_stub)]
+#[kani::stub(may_queue::mpsc::Queue::pop, q_pop_stub)]
+#[kani::stub(crate::sync::blocking::Blocker::park, park_stub)]
+#[kani::stub(crate::sync::blocking::Blocker::unpark, unpark_stub)]
+#[kani::unwind(3)]
+fn c06_2a_recv_is_woken_by_send_1() {
+    recv_is_woken_by_send::<0, 0>();
+}
+
+//@ obligation: C06.2.2
+//@ kind: K3
+//@ complete: yes
+//@ functions: mpsc::InnerQueue::recv, InnerQueue::try_recv, InnerQueue::send
+//@ statement: variant [right after the re-check found nothing, before the receiver parks]: recv (untimed and timed) with 0 or 1 value queued against ONE concurrent send executed at any of the receiver's observation points
+//@ statement: (before its re-check, between the re-check and the park, while parked): the receiver never parks unregistered, never parks while a
+//@ statement: value is queued whose sender is past its wake-up, and once the send has happened recv returns exactly the oldest value; a value that was
+//@ statement: queued is returned without parking and the registration is cleared
+#[kani::proof]
+#[kani::stub(crate::scheduler::get_scheduler, sup::get_scheduler_stub)]
+#[kani::stub(<crate::park::Park as std::ops::Drop>::drop, sup::park_drop_noop)]
+#[kani::stub(may_queue::mpsc::Queue::push, q_push_stub)]
+#[kani::stub(may_queue::mpsc::Queue::pop, q_pop_stub)]
+#[kani::stub(crate::sync::blocking::Blocker::park, park_stub)]
+#[kani::stub(crate::sync::blocking::Blocker::unpark, unpark_stub)]
+#[kani::unwind(3)]
+fn c06_2a_recv_is_woken_by_send_2() {
+    recv_is_woken_by_send::<0, 1>();
+}
+
+//@ obligation: C06.2.3
+//@ mem: 30
+//@ timeout: 900
+//@ kind: K3
+//@ complete: yes
+//@ functions: mpsc::InnerQueue::recv, InnerQueue::try_recv, InnerQueue::send
+//@ statement: variant [while the receiver is parked]: recv (untimed and timed) with 0 or 1 value queued against ONE concurrent send executed at any of the receiver's observation points
+//@ statement: (before its re-check, between the re-check and the park, while parked): the receiver never parks unregistered, never parks while a
+//@ statement: value is queued whose sender is past its wake-up, and once the send has happened recv returns exactly the oldest value; a value that was
+//@ statement: queued is returned without parking and the registration is cleared
+#[kani::proof]
+#[kani::stub(crate::scheduler::get_scheduler, sup::get_scheduler_stub)]
+#[kani::stub(<crate::park::Park as std::ops::Drop>::drop, sup::park_drop_noop)]
+#[kani::stub(may_queue::mpsc::Queue::push, q_push_stub)]
+#[kani::stub(may_queue::mpsc::Queue::pop, q_pop_stub)]
+#[kani::stub(crate::sync::blocking::Blocker::park, park_stub)]
+#[kani::stub(crate::sync::blocking::Blocker::unpark, unpark_stub)]
+#[kani::unwind(3)]
+fn c06_2a_recv_is_woken_by_send_3() {
+    recv_is_woken_by_send::<0, 2>();
+}
+
+
+fn recv_observes_last_sender_drop<const QUEUED: usize, const WHEN: usize>() {
+    let queued: usize = QUEUED;
     let q = setup(queued, 2);
+    unsafe { ENV_WHEN = WHEN };
     let timed: bool = kani::any();
     let r = q.recv(if timed { Some(Duration::from_millis(4)) } else { None });
     let dropped = unsafe { ENV_DONE };
@@ -205,10 +274,83 @@ fn c07_1a_recv_observes_last_sender_drop() {
     if dropped && queued == 1 {
         assert!(q.try_recv() == Err(TryRecvError::Disconnected), "[C07.1-then-disconnected] after draining the receiver gets Disconnected");
     }
-    kani::cover!(dropped && unsafe { PARKS } == 1, "the drop of the last sender woke the parked receiver");
-    kani::cover!(dropped && unsafe { PARKS } == 0, "the drop slipped in before the re-check");
     // leave the InnerQueue leaked (its Drop asserts channels == 0)
 }
+
+//@ obligation: C07.1.0
+//@ kind: K3
+//@ complete: yes
+//@ functions: mpsc::InnerQueue::recv, InnerQueue::try_recv, InnerQueue::drop_chan
+//@ statement: variant [a value already queued]: the same with the DROP OF THE LAST SENDER as the concurrent action and 0 or 1 value still queued: the receiver never parks once the
+//@ statement: last sender is past its wake-up; it first drains the queued value and reports Disconnected only with an empty queue, after the drop
+#[kani::proof]
+#[kani::stub(crate::scheduler::get_scheduler, sup::get_scheduler_stub)]
+#[kani::stub(<crate::park::Park as std::ops::Drop>::drop, sup::park_drop_noop)]
+#[kani::stub(may_queue::mpsc::Queue::push, q_push_stub)]
+#[kani::stub(may_queue::mpsc::Queue::pop, q_pop_stub)]
+#[kani::stub(crate::sync::blocking::Blocker::park, park_stub)]
+#[kani::stub(crate::sync::blocking::Blocker::unpark, unpark_stub)]
+#[kani::unwind(3)]
+fn c07_1a_recv_observes_last_sender_drop_0() {
+    recv_observes_last_sender_drop::<1, 0>();
+}
+
+//@ obligation: C07.1.1
+//@ kind: K3
+//@ complete: yes
+//@ functions: mpsc::InnerQueue::recv, InnerQueue::try_recv, InnerQueue::drop_chan
+//@ statement: variant [before the receiver's re-check of the queue]: the same with the DROP OF THE LAST SENDER as the concurrent action and 0 or 1 value still queued: the receiver never parks once the
+//@ statement: last sender is past its wake-up; it first drains the queued value and reports Disconnected only with an empty queue, after the drop
+#[kani::proof]
+#[kani::stub(crate::scheduler::get_scheduler, sup::get_scheduler_stub)]
+#[kani::stub(<crate::park::Park as std::ops::Drop>::drop, sup::park_drop_noop)]
+#[kani::stub(may_queue::mpsc::Queue::push, q_push_stub)]
+#[kani::stub(may_queue::mpsc::Queue::pop, q_pop_stub)]
+#[kani::stub(crate::sync::blocking::Blocker::park, park_stub)]
+#[kani::stub(crate::sync::blocking::Blocker::unpark, unpark_stub)]
+#[kani::unwind(3)]
+fn c07_1a_recv_observes_last_sender_drop_1() {
+    recv_observes_last_sender_drop::<0, 0>();
+}
+
+//@ obligation: C07.1.2
+//@ kind: K3
+//@ complete: yes
+//@ functions: mpsc::InnerQueue::recv, InnerQueue::try_recv, InnerQueue::drop_chan
+//@ statement: variant [right after the re-check found nothing, before the receiver parks]: the same with the DROP OF THE LAST SENDER as the concurrent action and 0 or 1 value still queued: the receiver never parks once the
+//@ statement: last sender is past its wake-up; it first drains the queued value and reports Disconnected only with an empty queue, after the drop
+#[kani::proof]
+#[kani::stub(crate::scheduler::get_scheduler, sup::get_scheduler_stub)]
+#[kani::stub(<crate::park::Park as std::ops::Drop>::drop, sup::park_drop_noop)]
+#[kani::stub(may_queue::mpsc::Queue::push, q_push_stub)]
+#[kani::stub(may_queue::mpsc::Queue::pop, q_pop_stub)]
+#[kani::stub(crate::sync::blocking::Blocker::park, park_stub)]
+#[kani::stub(crate::sync::blocking::Blocker::unpark, unpark_stub)]
+#[kani::unwind(3)]
+fn c07_1a_recv_observes_last_sender_drop_2() {
+    recv_observes_last_sender_drop::<0, 1>();
+}
+
+//@ obligation: C07.1.3
+//@ mem: 30
+//@ timeout: 900
+//@ kind: K3
+//@ complete: yes
+//@ functions: mpsc::InnerQueue::recv, InnerQueue::try_recv, InnerQueue::drop_chan
+//@ statement: variant [while the receiver is parked]: the same with the DROP OF THE LAST SENDER as the concurrent action and 0 or 1 value still queued: the receiver never parks once the
+//@ statement: last sender is past its wake-up; it first drains the queued value and reports Disconnected only with an empty queue, after the drop
+#[kani::proof]
+#[kani::stub(crate::scheduler::get_scheduler, sup::get_scheduler_stub)]
+#[kani::stub(<crate::park::Park as std::ops::Drop>::drop, sup::park_drop_noop)]
+#[kani::stub(may_queue::mpsc::Queue::push, q_push_stub)]
+#[kani::stub(may_queue::mpsc::Queue::pop, q_pop_stub)]
+#[kani::stub(crate::sync::blocking::Blocker::park, park_stub)]
+#[kani::stub(crate::sync::blocking::Blocker::unpark, unpark_stub)]
+#[kani::unwind(3)]
+fn c07_1a_recv_observes_last_sender_drop_3() {
+    recv_observes_last_sender_drop::<0, 2>();
+}
+
 
 //@ obligation: C07.1b
 //@ kind: K3
@@ -252,6 +394,8 @@ fn pop_then_send_and_drop<T>(_q: &Queue<T>) -> Option<T> {
 }
 
 //@ obligation: C06.4a
+//@ mem: 30
+//@ timeout: 900
 //@ property: C06 C07
 //@ kind: K2
 //@ complete: yes
@@ -319,6 +463,7 @@ fn unpark_checks_pushed(_b: &Blocker) {
 #[kani::unwind(3)]
 fn c06_canary() {
     let q = setup(0, 1);
+    unsafe { ENV_WHEN = 2 };
     let _ = q.recv(None);
     assert!(unsafe { PARKS } == 0, "[C06.canary] canary (expected to fail)");
 }
